@@ -226,7 +226,9 @@ AccessPaths ==
     [path |-> "file_chunks_listed", modes |-> {"lazy"},   scaled |-> TRUE,  stream |-> "file"],   \* list(...) first, inspect later
     [path |-> "read_data_unscaled", modes |-> {"eager", "lazy"}, scaled |-> FALSE, stream |-> "none"],
     [path |-> "raw_data",    modes |-> {"eager"},         scaled |-> FALSE, stream |-> "none"] }
-Configs == [memmap : BOOLEAN, rawts : BOOLEAN, source : {"path", "pathlib", "stream", "fileobj"}]
+\* sources: a path (str / pathlib), an in-memory stream, a caller's file object, a file object of another kind whose
+\* descriptor belongs to a different file (gzip.open: the position and size that count are the stream's, not the file's)
+Configs == [memmap : BOOLEAN, rawts : BOOLEAN, source : {"path", "pathlib", "stream", "fileobj", "gzip"}]
 
 \* behaviour used by the C03 GEN configuration: choose a shape, nothing else happens
 AccInit == Init
